@@ -43,21 +43,33 @@ POLL_SILENCE = 0.375
 class E0(BaseEvent):
     tag: int = -1
     depth: int = 0
+    blob: Any = None
+    when: datetime.datetime | None = None
+    txt: str = ''
 
 
 class E1(BaseEvent):
     tag: int = -1
     depth: int = 0
+    blob: Any = None
+    when: datetime.datetime | None = None
+    txt: str = ''
 
 
 class E2(BaseEvent):
     tag: int = -1
     depth: int = 0
+    blob: Any = None
+    when: datetime.datetime | None = None
+    txt: str = ''
 
 
 class E3(BaseEvent):
     tag: int = -1
     depth: int = 0
+    blob: Any = None
+    when: datetime.datetime | None = None
+    txt: str = ''
 
 
 class WarmUp(BaseEvent):
@@ -197,6 +209,11 @@ class World:
             kw['event_parent_id'] = '01234567-89ab-cdef-0123-456789abcdef'
         elif xp == 'root0' and self.roots:
             kw['event_parent_id'] = self.events[self.roots[0]].event_id
+        pl = flags.get('pl')
+        if pl is not None and self.sc.get('payloads'):
+            p = self.sc['payloads'][pl % len(self.sc['payloads'])]
+            for k, v in p.items():
+                kw[k] = datetime.datetime.fromisoformat(v) if k == 'when' and isinstance(v, str) else v
         e = ET[typ](tag=tag, depth=depth, event_created_at=self.base_time + datetime.timedelta(milliseconds=tag + 1), **kw)
         self.events[tag] = e
         return tag, e
@@ -829,6 +846,8 @@ def run_scenario(sc: dict, *, keep_world: bool = False, spin_budget: int = 60_00
                 raise HarnessError(f'actor failed: {a.exception()!r}')
         w.finished = True
         w.rec('quiet')
+        if wal_ctx is not None:
+            wal_ctx.finish()
         out['final'] = {tag: w.snap(tag) for tag in w.events}
         out['history'] = {b.name: [getattr(e, 'tag', None) for e in b.event_history.values()] for b in w.buses}
         out['end_handlers'] = {b.name: sum(len(v) for v in b.handlers.values()) for b in w.buses}
